@@ -135,7 +135,14 @@ where
 
                 let reply: Reply = from_slice(&buf)?;
 
-                if upgraded || (!reply.continues.unwrap_or(false)) {
+                if upgraded {
+                    // bytes the service sent right behind its upgrade reply belong to the client
+                    client_writer.write_all(service_bufreader.buffer())?;
+                    client_writer.flush()?;
+                    break;
+                }
+
+                if !reply.continues.unwrap_or(false) {
                     break;
                 }
             }
